@@ -189,6 +189,8 @@ def run(ctx, rep):
                 out[j] *= c
                 return out
             check(rep, "rescale-feature", case, w_ref, c8, back_rs)
+    from . import moves_common
+    moves_common.run_kernel_symmetries(ctx, rep)
     rep.sample(dict(transforms=sorted(rep.hist)))
 
 
